@@ -1,6 +1,7 @@
 package run
 
 import (
+	"encoding/hex"
 	"fmt"
 	"math/rand"
 	"strings"
@@ -198,8 +199,8 @@ func (c *Concretiser) Bytes(m M) []byte {
 			}
 			var b []byte
 			scan := ""
-			if raw, has := p["_b"]; has {
-				b = raw.([]byte)
+			if raw, has := p["_hex"]; has {
+				b, _ = hex.DecodeString(fmt.Sprint(raw))
 				scan = string(b)
 			} else if cls, has := p["cls"]; has {
 				switch cls {
@@ -248,8 +249,8 @@ func (c *Concretiser) Bytes(m M) []byte {
 		return pgw.Terminate()
 	case "d":
 		var b []byte
-		if raw, has := m["_b"]; has {
-			b = raw.([]byte)
+		if raw, has := m["_hex"]; has {
+			b, _ = hex.DecodeString(fmt.Sprint(raw))
 		} else {
 			b = []byte("d" + c.randText(20))
 		}
